@@ -35,9 +35,22 @@ def both(fn):
     def f(ctx, res):
         fn(ctx, res, config="all")
         fn(ctx, res, config="all-rel")
+        if ctx.thorough():
+            # the same rule on the facts of the default and the no_std build
+            for cfg in ("default", "nostd"):
+                fn(ctx, res, config=cfg)
 
     f.__name__ = fn.__name__ + "_dev_and_release"
     return f
+
+
+PORTABLE = set()
+
+
+def portable(*fns):
+    """rules that hold verbatim on the default and no_std fact bases: the thorough tier re-runs them there"""
+    for fn in fns:
+        PORTABLE.add(fn)
 
 
 def _c10_forwarders(ctx, res):
@@ -242,3 +255,12 @@ PROPS = {
         "technique": T_R3 + "; CFG/loop-structure and argument-provenance analysis of the samplers",
     },
 }
+
+
+portable(
+    r1.check_closed_world, r1.check_biguint_normal_form, r1.check_normalize_body,
+    r3.check_checked_div, r3.check_checked_sub, r3.check_add2_carry_used, r3.check_division_sites, r3.check_residue_complement,
+    r3.check_parity_dispatch, r3.check_underflow_check_sees_all_digits,
+    r4.check_inventory, r4.check_block_loops, r4.check_block_loop_callers, r4.check_div_wide, r4.check_utf8,
+    r7.check_bases, r7.check_formatters, r9.check_iterators, r9.check_eq_ord_hash, r9.check_sign_readers, r10.check_fixpoint_invariant,
+)
